@@ -14,6 +14,9 @@ The MODULE itself -- which column of the row is the previous hedge, which option
 is the model definition `wwForwardRow` (Model/WWModule.lean; theorems in Lemmas/C20Module.lean), evaluated by op "ww_module" on every row
 of every WhalleyWilmott.forward section (all four kinds, all input shapes flattened to rows), on the per-step rows (features of the step +
 previous hedge) of the Hedger section, and on rows of a wrong length (error kinds); compared with the output of the real module.
+The band INFINITELY wide (gamma = +inf: a European option exactly at the money at maturity or at zero volatility, cost > 0): the previous hedge
+is kept, never NaN (zero cost: the delta limit +-1/2); rows sent to the same ops (IEEE infinities on the Float carrier, compared NaN-aware),
+also through a Hedger on markets that rest on / visit the strike with zero volatility.
 The helpers are also evaluated OUTSIDE the usual range of their arguments, wherever the documented formula is defined: bilerp weights
 outside [0, 1] (float / 0-dim / per-element tensor weights, float32 and float64), SVI parameters of any sign, box_muller with u1 <= 0 /
 around epsilon, angles beyond one turn and a caller-chosen epsilon, ww_width with negative / huge gamma, cost rates up to 1 and tensor
@@ -647,6 +650,223 @@ def check(ctx):
                                  "delta": float(delta[i, 0]), "gamma": float(gam[i, 0]), "width_doc": float(wdoc[i, 0]),
                                  "state": {nm: float(kw[nm][i, 0]) for nm in names[:-1]}})
         wmod_add(kind, call, k, cost, a, step_rows, step_meta)
+    # ---------------- the band INFINITELY wide.  Exactly at the money (log-moneyness 0) at maturity or at zero volatility the Black-Scholes gamma
+    # of a European option is +inf, so with a positive cost the half-width is +inf and the band is the whole line: the strategy KEEPS the
+    # previous hedge, whatever it is (never NaN); with zero cost there is no band and the hedge is the at-the-money delta limit +-1/2.  Next
+    # to them: bands that are finite but astronomically wide (time to maturity / volatility 1e-300: the previous hedge is kept), states off the
+    # strike at maturity (gamma 0: the band collapses onto the delta 0 / 1), ordinary rows in the same input tensor.  All rows go to the
+    # model of the module (op "ww_module", forward and width: IEEE infinities are native on the Float carrier; compared NaN-aware), to
+    # op "ww_full" and the half-widths to op "ww_width" (gamma = inf).
+    inf_corpus = [(1e-3, 1.0, 1.0, True, "float64"), (5e-4, 2.5, 1.3, False, "float64"), (1e-2, 0.25, 0.8, True, "float32"), (0.0, 1.0, 1.0, True, "float64")]
+    for it_ in range(len(inf_corpus) + (50 if ctx.tier == "quick" else 700)):
+        cost = g.choice([1e-4, 1e-3, 1e-2, 5e-2, 1e-3, 0.0])
+        a = g.choice([0.25, 1.0, 3.0, 1.0])
+        k = g.choice([0.5, 1.0, 2.0, 1.0, 7.5, 1.3])
+        call = g.chance(0.6)
+        dtn = g.weighted([("float64", 3), ("float32", 1)])
+        if it_ < len(inf_corpus):
+            cost, a, k, call, dtn = inf_corpus[it_]
+        dt_ = getattr(torch, dtn)
+        d = EuropeanOption(BrownianStock(cost=cost, dtype=dt_), call=call, strike=k)
+        m = WhalleyWilmott(d, a=a)
+        ref = BlackScholes(EuropeanOption(BrownianStock(dtype=dt_), call=call, strike=k))
+        n_rows = 6 if it_ < len(inf_corpus) else g.choice([1, 2, 4, 6])
+        rows, kinds_ = [], []
+        for i_ in range(n_rows):
+            rk = g.weighted([("inf_t0", 3), ("inf_v0", 3), ("inf_both", 2), ("huge", 2), ("off_strike_t0", 1), ("ordinary", 2)])
+            if it_ < len(inf_corpus):
+                rk = ["inf_t0", "inf_v0", "inf_both", "huge", "off_strike_t0", "ordinary"][i_]
+            t = g.choice([1 / 250, 0.1, 1.0, 2.0])
+            v = g.choice([0.05, 0.2, 0.6])
+            s = 0.0
+            if rk == "inf_t0":
+                t = 0.0
+            elif rk == "inf_v0":
+                v = 0.0
+            elif rk == "inf_both":
+                t = v = 0.0
+            elif rk == "huge":
+                if g.chance(0.5):
+                    t = 1e-300 if dtn == "float64" else 1e-30
+                else:
+                    v = 1e-300 if dtn == "float64" else 1e-30
+            elif rk == "off_strike_t0":
+                s = g.choice([-0.2, -0.03, 0.01, 0.15, 1e-12 if dtn == "float64" else 1e-6])
+                if g.chance(0.5):
+                    t = 0.0
+                else:
+                    v = 0.0
+            else:
+                s = g.r.uniform(-0.5, 0.5)
+            prev = g.choice([0.0, 0.37, 0.5, -0.3, 1.0, 1.4, 5.0, -1e6, g.r.uniform(-3, 3)])
+            if rk.startswith("inf") and g.chance(0.15):
+                prev = g.choice([1e300, -1e300]) if dtn == "float64" else g.choice([1e30, -1e30])
+            rows.append([s, t, v, prev])
+            kinds_.append(rk)
+        shape = g.choice(["(N,F)", "(N,F)", "(N,1,F)", "(1,N,F)"])
+        x = torch.tensor(rows, dtype=dt_)
+        rows = [[float(z) for z in r_] for r_ in x.tolist()]                       # the numbers of the dtype
+        x = x if shape == "(N,F)" else (x.unsqueeze(1) if shape == "(N,1,F)" else x.unsqueeze(0))
+        base = {"kind": "european", "cost": cost, "a": a, "k": k, "call": call, "dtype": dtn, "input_shape": shape}
+        st, o, mut = call_impl(m, x)
+        st2, w_, mut2 = call_impl(m.width, x[..., :-1])
+        if mut or mut2:
+            ctx.mutated("WhalleyWilmott", mut or mut2, base | {"rows": rows})
+        if st != "ok" or st2 != "ok" or tuple(o.shape) != tuple(x.shape[:-1]) + (1,) or tuple(w_.shape) != tuple(x.shape[:-1]) + (1,):
+            ctx.fail("WhalleyWilmott.forward / width raised or returned a wrong shape on rows where the band is infinitely wide / degenerate",
+                     base | {"rows": rows}, key="WhalleyWilmott:infinite-band:error", detail=[str(o)[:100], str(w_)[:100]])
+            continue
+        outs = [float(z) for z in o.detach().reshape(-1).tolist()]
+        wids = [float(z) for z in w_.detach().reshape(-1).tolist()]
+        lim = 0.5 if call else -0.5
+        metas_f, metas_w = [], []
+        for row, rk, out, wid in zip(rows, kinds_, outs, wids):
+            s, t, v, prev = row
+            case = base | {"row": row, "row_kind": rk}
+            ctx.case(case, nontrivial=cost > 0, tag="ww:infinite-band" if rk.startswith("inf") else "ww:edge:" + rk)
+            ctx.stats[f"ww:edge:{rk}:cost>0={cost > 0}"] += 1
+            ctx.traces += 1
+            metas_f.append((case, out, None))
+            metas_w.append((case | {"what": "width"}, wid, None))
+            if rk.startswith("inf"):
+                wreq_elems.append([math.inf, k, cost, a])          # spot = k exp(0)
+                wmeta.append(wid)
+                if cost > 0:
+                    if wid != math.inf:
+                        ctx.fail("WhalleyWilmott.width is not +inf where the gamma is infinite (at the money at maturity / zero volatility) and the cost positive",
+                                 case, key="WhalleyWilmott.width:infinite-band", detail={"impl": wid})
+                    if not out == prev:
+                        ctx.fail("Whalley-Wilmott does not keep the previous hedge where the no-transaction band is infinitely wide (gamma = inf: at the money "
+                                 "at maturity or at zero volatility, cost > 0)", case, key="WhalleyWilmott.forward:infinite-band",
+                                 detail={"impl": out, "expected": prev, "width": wid})
+                else:
+                    if wid != 0.0 or not out == lim:
+                        ctx.fail("Whalley-Wilmott with zero cost is not the Black-Scholes delta (at the money at maturity / zero volatility: +-1/2) "
+                                 "where the gamma is infinite", case, key="WhalleyWilmott.forward:zero-cost:infinite-gamma",
+                                 detail={"impl": out, "expected": lim, "width": wid})
+                continue
+            if rk == "off_strike_t0":
+                # no randomness left and off the strike: delta 1 / 0 (put: 0 / -1), gamma 0, the band is the point delta
+                exp = (1.0 if s > 0 else 0.0) if call else (0.0 if s > 0 else -1.0)
+                if wid != 0.0 or not out == exp:
+                    ctx.fail("Whalley-Wilmott at maturity / zero volatility off the strike is not the limiting Black-Scholes delta (band of width 0)", case,
+                             key="WhalleyWilmott.forward:degenerate-band", detail={"impl": out, "expected": exp, "width": wid})
+                continue
+            # huge / ordinary: the band oracle from the delta and gamma of an independent Black-Scholes module (named arguments)
+            kw = {"log_moneyness": torch.tensor([[s]], dtype=dt_), "time_to_maturity": torch.tensor([[t]], dtype=dt_), "volatility": torch.tensor([[v]], dtype=dt_)}
+            with torch.no_grad():
+                delta, gam = float(ref.delta(**kw)), float(ref.gamma(**kw))
+            if not (math.isfinite(delta) and math.isfinite(gam)):
+                ctx.stats["ww: Black-Scholes delta / gamma not finite (skipped; C18 matter)"] += 1
+                continue
+            g2 = gam * gam                      # may overflow to inf, as in the code (float32: beyond 3.4e38)
+            if dtn == "float32" and g2 > 3.0e38:
+                g2 = math.inf
+            wdoc = (3 * cost * g2 * (k * math.exp(s)) / (2 * a)) ** (1 / 3) if cost > 0 else 0.0
+            rel = 1e-7 if dtn == "float64" else 1e-3
+            if math.isinf(wdoc):
+                if wid != wdoc or not out == prev:
+                    ctx.fail("Whalley-Wilmott does not keep the previous hedge where gamma^2 overflows (the band is the whole line)", case,
+                             key="WhalleyWilmott.forward:huge-band", detail={"impl": out, "expected": prev, "width": wid})
+                continue
+            if not abs(wid - wdoc) <= rel * wdoc + 1e-12:
+                ctx.fail("WhalleyWilmott.width is not (3 c gamma^2 S / (2a))^(1/3)", case, key="WhalleyWilmott.width:european:edge",
+                         detail={"impl": wid, "width_doc": wdoc, "gamma": gam})
+            lo_, hi_ = delta - wdoc, delta + wdoc
+            exp = prev if lo_ <= prev <= hi_ else (hi_ if prev > hi_ else lo_)
+            if rk == "huge" and cost > 0 and lo_ * (1 - rel) < prev < hi_ * (1 - rel) and not out == prev:
+                ctx.fail("Whalley-Wilmott does not keep the previous hedge inside an astronomically wide (finite) band", case,
+                         key="WhalleyWilmott.forward:huge-band", detail={"impl": out, "expected": prev, "width": wid})
+            elif not abs(out - exp) <= (1e-9 if dtn == "float64" else 1e-5) * (1 + abs(exp)) + rel * wdoc:
+                ctx.fail("Whalley-Wilmott hedge is not clamp(prev, delta -/+ (3 c gamma^2 S / (2a))^(1/3))", case, key="WhalleyWilmott.forward:band:edge-rows",
+                         detail={"impl": out, "expected": exp, "delta": delta, "width_doc": wdoc})
+        if dtn == "float64":
+            wmod_add("european", call, k, cost, a, rows, metas_f)
+            wmod_add("european", call, k, cost, a, [r_[:-1] for r_ in rows], metas_w, what="width")
+            for (case, out, _t) in metas_f:
+                wwmeta.append((case, out))
+            wwreqs.append({"op": "ww_full", "cost": float_bits(cost), "a": float_bits(a), "k": float_bits(k), "call": call, "elems": enc_flt(rows)})
+    # ... and through a Hedger: (a) a zero-volatility market resting exactly on the strike (BrownianStock(sigma=0), init_state=(strike,)): every
+    # step is at the money with zero volatility -- infinite band with a cost (the hedge stays at its initial 0), +-1/2 without; (b) a market with
+    # injected buffers (HestonStock: spot and variance given) that visits the strike with zero variance at some steps after ordinary steps: there
+    # the hedge of the step before is kept, elsewhere the band rule holds.  Every (path, step) row also goes to the model of the module.
+    from pfhedge.instruments import HestonStock
+    for it_ in range(16 if ctx.tier == "quick" else 200):
+        mode = "resting" if it_ % 2 == 0 else "visits"
+        cost = g.choice([1e-4, 1e-3, 1e-2, 1e-3, 0.0])
+        a = g.choice([0.25, 1.0, 3.0])
+        k = g.choice([1.0, 0.9, 1.1, 2.0, 1.03])
+        call = g.chance(0.6)
+        n_steps, dtv, n_paths = g.randint(2, 6), g.choice([1 / 250, 1 / 50, 1 / 12]), g.randint(1, 3)
+        if mode == "resting":
+            stock = BrownianStock(sigma=0.0, cost=cost, dt=dtv, dtype=torch.float64)
+            d = EuropeanOption(stock, call=call, strike=k, maturity=n_steps * dtv)
+            d.simulate(n_paths=n_paths, init_state=(k,))
+        else:
+            stock = HestonStock(cost=cost, dt=dtv, dtype=torch.float64)
+            d = EuropeanOption(stock, call=call, strike=k, maturity=n_steps * dtv)
+            spot_, var_ = [], []
+            for _p in range(n_paths):
+                on = [g.chance(0.5) for _j in range(n_steps + 1)]
+                on[0] = False                                           # an ordinary first step: the hedge carried into the band is not the initial 0
+                if not any(on[1:n_steps]):
+                    on[g.randint(1, n_steps - 1) if n_steps > 1 else 0] = n_steps > 1
+                spot_.append([k if o_ else k * g.choice([0.8, 0.95, 1.05, 1.25]) for o_ in on])
+                var_.append([0.0 if o_ else g.choice([0.01, 0.04, 0.25, 0.0]) for o_ in on])
+            stock.register_buffer("spot", torch.tensor(spot_, dtype=torch.float64))
+            stock.register_buffer("variance", torch.tensor(var_, dtype=torch.float64))
+        m = WhalleyWilmott(d, a=a)
+        ref = BlackScholes(EuropeanOption(BrownianStock(dtype=torch.float64), call=call, strike=k))
+        names = m.inputs()
+        case = {"kind": "european", "market": mode, "cost": cost, "a": a, "k": k, "call": call, "dt": dtv, "spot": stock.spot.tolist(),
+                "volatility": stock.volatility.tolist()}
+        st, hedge, mut = call_impl(Hedger(m, inputs=names).compute_hedge, d)
+        ctx.case(case, nontrivial=cost > 0, tag="ww:hedger:infinite-band:" + mode)
+        ctx.traces += 1
+        if mut:
+            ctx.mutated("Hedger(WhalleyWilmott).compute_hedge", mut, case)
+        if st != "ok" or hedge.dim() != 3 or tuple(hedge.shape) != (n_paths, 1, n_steps + 1):
+            ctx.fail("Hedger(WhalleyWilmott(derivative)).compute_hedge raised / returned a wrong shape on a market that sits on the strike with zero volatility",
+                     case, key="WhalleyWilmott:hedger:infinite-band:error", detail=hedge if st != "ok" else list(hedge.shape))
+            continue
+        hedge = hedge.detach()
+        step_rows, step_meta, found = [], [], False
+        for ts in range(n_steps):
+            for i in range(n_paths):
+                s_, t_, v_ = float(d.log_moneyness(ts)[i, 0]), float(d.time_to_maturity(ts)[i, 0]), float(stock.volatility[i, ts])
+                prev = float(hedge[i, 0, ts - 1]) if ts else 0.0
+                out = float(hedge[i, 0, ts])
+                row = [s_, t_, v_, prev]
+                at = case | {"path": i, "step": ts, "row": row}
+                infinite = s_ == 0.0 and (v_ == 0.0 or t_ == 0.0)
+                ctx.stats[f"ww:hedger:infinite-band:steps:{'infinite' if infinite else 'other'}"] += 1
+                if infinite:
+                    exp = prev if cost > 0 else (0.5 if call else -0.5)
+                    if not out == exp and not found:
+                        found = True
+                        ctx.fail("the hedge of a Hedger with the Whalley-Wilmott strategy is not the hedge of the step before where the band is infinitely wide "
+                                 "(spot on the strike, zero volatility, cost > 0)" if cost > 0 else "the hedge of a Hedger with the Whalley-Wilmott strategy and zero "
+                                 "cost is not the at-the-money delta limit +-1/2 on the strike at zero volatility", at,
+                                 key="WhalleyWilmott:hedger:infinite-band" if cost > 0 else "WhalleyWilmott:hedger:zero-cost:infinite-gamma",
+                                 detail={"impl": out, "expected": exp, "hedge[path]": hedge[i, 0].tolist()})
+                else:
+                    kw = {"log_moneyness": torch.tensor([[s_]], dtype=torch.float64), "time_to_maturity": torch.tensor([[t_]], dtype=torch.float64),
+                          "volatility": torch.tensor([[v_]], dtype=torch.float64)}
+                    with torch.no_grad():
+                        delta, gam = float(ref.delta(**kw)), float(ref.gamma(**kw))
+                    if not (math.isfinite(delta) and math.isfinite(gam)):
+                        continue
+                    wdoc = (3 * cost * gam ** 2 * (k * math.exp(s_)) / (2 * a)) ** (1 / 3) if cost > 0 else 0.0
+                    exp = prev if delta - wdoc <= prev <= delta + wdoc else (delta + wdoc if prev > delta + wdoc else delta - wdoc)
+                    if not abs(out - exp) <= 1e-9 * (1 + abs(exp)) + 1e-7 * wdoc and not found:
+                        found = True
+                        ctx.fail("the hedge of a Hedger with the Whalley-Wilmott strategy is not the previous hedge clamped to delta -/+ (3 c gamma^2 S / (2a))^(1/3) "
+                                 "at some step", at, key="WhalleyWilmott:hedger:european:band:zero-volatility-market",
+                                 detail={"impl": out, "expected": exp, "delta": delta, "gamma": gam, "width_doc": wdoc})
+                if math.isfinite(prev):
+                    step_rows.append(row)
+                    step_meta.append((at, out, None))
+        wmod_add("european", call, k, cost, a, step_rows, step_meta)
     # ---------------- rows of a wrong length and inputs(): the model of the module says what the real module does with them (too many columns:
     # TypeError of the positional call; an empty row: IndexError; too few: the missing parameters are looked up in the derivative, which has not
     # been simulated here: AttributeError) -- error kinds and, for the full length, values (time to maturity / volatility of any sign)
@@ -786,4 +1006,8 @@ def check(ctx):
              "features) through forward() on concatenated rows and through a Hedger on simulated paths, every row and every (path, step) also through the model of the "
              "module (op ww_module), which is also run on rows of every length 0 .. len(inputs()) + 2; helpers outside the usual range of their arguments "
              "(bilerp weights in [-3,4], SVI parameters of any sign, box_muller u1 <= 0 / near epsilon / other epsilon / angles beyond a turn, ww_width with "
-             "negative gamma and tensor cost / a); distinct = sha1 of canonical case")
+             "negative gamma and tensor cost / a); the band INFINITELY wide (European, log-moneyness 0 with time to maturity 0 and / or volatility 0, gamma = inf): "
+             "previous hedge kept for cost > 0 (any previous hedge up to 1e300), +-1/2 for zero cost, next to astronomically wide finite bands (t or v = 1e-300), "
+             "degenerate bands off the strike at maturity and ordinary rows, float64 and float32, through forward / width (ops ww_module forward + width, ww_full, "
+             "ww_width with gamma = inf) and through a Hedger on a zero-volatility market resting on the strike / an injected Heston market visiting the strike with "
+             "zero variance; distinct = sha1 of canonical case")
